@@ -2,6 +2,7 @@ package keeper
 
 import (
 	"encoding/binary"
+	"sort"
 
 	sdkmath "cosmossdk.io/math"
 	assetstypes "github.com/ExocoreNetwork/exocore/x/assets/types"
@@ -99,7 +100,15 @@ func (k Keeper) GetMultipleAssetsPrices(ctx sdk.Context, assets map[string]inter
 	// ret := make(map[string]types.Price)
 	prices = make(map[string]types.Price)
 	info := ""
+	// visit the assets in a fixed order: the loop stops at the first asset the oracle does not know, and the
+	// store reads made before that are charged to the transaction's gas meter. in map order the same failing
+	// message consumed different amounts of gas on different nodes.
+	assetIDs := make([]string, 0, len(assets))
 	for assetID := range assets {
+		assetIDs = append(assetIDs, assetID)
+	}
+	sort.Strings(assetIDs)
+	for _, assetID := range assetIDs {
 		// for native token exo, we temporarily use default price
 		if assetID == assetstypes.ExocoreAssetID {
 			prices[assetID] = types.Price{
